@@ -8,6 +8,7 @@ import (
 	"strings"
 	"time"
 
+	"raven/internal/db"
 	"raven/internal/models"
 	"raven/internal/server/auth"
 	"raven/internal/server/extension"
@@ -81,6 +82,9 @@ func handleClient(s *IMAPServer, conn net.Conn, state *models.ClientState) {
 		case "STATUS":
 			mailbox.HandleStatus(s, conn, tag, parts, state)
 		case "UID":
+			if len(parts) > 2 && strings.EqualFold(parts[2], "EXPUNGE") {
+				s.announceNewMessages(conn, state)
+			}
 			uid.HandleUID(s, conn, tag, parts, state)
 		case "IDLE":
 			extension.HandleIdle(s, conn, tag, state)
@@ -97,6 +101,7 @@ func handleClient(s *IMAPServer, conn net.Conn, state *models.ClientState) {
 		case "CLOSE":
 			selection.HandleClose(s, conn, tag, state)
 		case "EXPUNGE":
+			s.announceNewMessages(conn, state)
 			message.HandleExpunge(s, conn, tag, state)
 		case "SUBSCRIBE":
 			mailbox.HandleSubscribe(s, conn, tag, parts, state)
@@ -116,6 +121,25 @@ func handleClient(s *IMAPServer, conn net.Conn, state *models.ClientState) {
 			s.sendResponse(conn, fmt.Sprintf("%s BAD Unknown command: %s", tag, cmd))
 		}
 	}
+}
+
+// announceNewMessages tells the session of the messages that have arrived in the selected mailbox since its last
+// update (deliveries, other sessions), before a command that may expunge some of them: a client can only apply the
+// removal of a message it has been told about (RFC 3501 5.2, 7.4.1)
+func (s *IMAPServer) announceNewMessages(conn net.Conn, state *models.ClientState) {
+	if !state.Authenticated || state.SelectedMailboxID == 0 {
+		return
+	}
+	selectedDB, _, err := s.GetSelectedDB(state)
+	if err != nil {
+		return
+	}
+	count, err := db.GetMessageCountPerUser(selectedDB, state.SelectedMailboxID)
+	if err != nil || count <= state.LastMessageCount {
+		return
+	}
+	s.sendResponse(conn, fmt.Sprintf("* %d EXISTS", count))
+	state.LastMessageCount = count
 }
 
 // SendResponse sends a response to the client (exported for auth package)
